@@ -9,7 +9,7 @@ for f in ("patch.diff", "demo.rs"):
 m = json.load(open(os.path.join(src, "meta.json")))
 m["confirmed_by_framework_author"] = {
     "ran": ["tools/seed_verify.sh: fresh worktree of /repo HEAD; demo passes on pristine, fails with patch; cargo test --workspace --no-fail-fast --offline passes with patch",
-            "tools/seed_run.sh: git -C /repo apply patch; ./check %s --tier quick; git -C /repo checkout -- ." % m.get("property", sid[:3])],
+            "tools/seed_iso.sh: isolated snapshot of /verif (own build directory) + scratch worktree of /repo HEAD with the patch applied (VERIF_REPO); ./check %s --tier quick there; /repo itself untouched" % m.get("property", sid[:3])],
     "check_result": verdict, "detail": detail, "date": time.strftime("%Y-%m-%d")}
 json.dump(m, open(os.path.join(dst, "meta.json"), "w"), indent=1)
 print("kept", dst)
